@@ -1,6 +1,6 @@
 (* C09 — class prefixing hits every class selector and nothing else. Pinned statements. *)
 From GE Require Import Model.Str Model.CssNum Model.CssTok Model.CssOut Model.CssUrlEnc Model.Css Model.CssSpec.
-From GE Require Import Proofs.CssSpecProofs Proofs.CssTokProofs Proofs.CssClassProofs.
+From GE Require Import Proofs.CssSpecProofs Proofs.CssTokProofs Proofs.CssClassProofs Proofs.CssSheetClass.
 Open Scope N_scope.
 
 (* "nothing else", for every token tree and every option set without @import / :host rewriting:
@@ -51,10 +51,31 @@ Theorem C09_class_exact_rule : forall o prelude pb body e c rest st,
 Proof. exact class_exact_rule_normal. Qed.
 Print Assumptions C09_class_exact_rule.
 
-(* whole-sheet statement C09_prefix_exact_full (identifier / sign sequence of the normal output =
-   specification, every well-formed sheet): it was refuted by D13 and then by D25; both are repaired
-   and both former witnesses satisfy it now.  It is neither refuted (no counterexample known, none of
-   the remaining classes touches identifiers) nor proved as a whole; it is checked on every run. *)
+(* WHOLE SHEETS (every size, every nesting depth of at-rules, selector functions and blocks): without
+   @import / :host rewriting, on every well-shaped token tree whose rules the specification finds
+   complete (each has its `;` or `{}` terminator), the identifiers and sign comments of the normal
+   output are exactly the specification's: every identifier directly after a `.` in selector
+   context - qualified-rule preludes, blocks of at-rule preludes, every depth of selector functions,
+   every rule inside every rule-bearing at-rule - is `<prefix>--<name>` preceded by the sign comment,
+   and nothing else is touched or added.  Composition of C09_class_exact_rule over rule splitting,
+   at-rule preludes and nested rule lists (Proofs/CssSheetClass.v, lockstep induction on the fuel) *)
+Theorem C09_class_exact_sheet : forall o tree endp,
+  shaped tree = true -> import_sign o = None -> convert_host o = false ->
+  so_complete (expected o tree) = true ->
+  idc (o_tokens (w_normal (transform o tree endp))) = idc (map e_tok (so_normal (expected o tree))).
+Proof. exact class_exact_sheet. Qed.
+Print Assumptions C09_class_exact_sheet.
+
+(* the hypotheses are inhabited by a sheet with nested at-rules and selector functions *)
+Example C09_class_exact_sheet_inhabited :
+  shaped d14_tree = true /\ so_complete (expected with_prefix d14_tree) = true /\
+  map ser_tok (idc (o_tokens (w_normal (transform with_prefix d14_tree (mkpos 0 17))))) = [[120]; [112;45;45;97]; [112;45;45;98]].
+Proof. vm_compute. repeat split; reflexivity. Qed.
+
+(* the same statement with @import / :host rewriting on (C09_prefix_exact_full over all option sets)
+   was refuted by D13 and then by D25; both are repaired and both former witnesses satisfy it now.
+   With the rewrites on it is neither refuted nor proved as a whole (the theorem above covers the
+   option sets without them); it is checked on every run. *)
 Theorem C09_former_witnesses_now_exact :
   (map ser_tok (idents (o_tokens (w_normal (transform with_prefix d13_tree (mkpos 0 20))))) =
    map ser_tok (idents (map e_tok (so_normal (expected with_prefix d13_tree))))) /\
